@@ -5,6 +5,9 @@ CHECKS = {
     "C24": "hwrecovery",
     "C25": "composite",
     "C21": "units",
+    "C34": "csvhold",
+    "C35": "errlog",
+    "C22": "arglang",
 }
 
 MC = "model_checking"
@@ -43,4 +46,24 @@ CLAIMS = {
             "Trusted: the unit table transcribed into Units.tla (conversion factors as small rationals x power of ten), an "
             "exact Fraction-based pint registry used only to propose inputs. Values limited to what 28-digit decimals represent.",
             "6.9, 7 C21"),
+    "C22": (EXP, "TLA+ reference languages ArgLang.tla (number / categorical argument grammars over character sequences) against "
+                 "re.search on the real patterns, judged case by case by ArgLangTrace.tla",
+            "For 9 unit lists (incl. regex metacharacters) x 4 number flavours and 8 option-list pairs, candidate strings from the "
+            "documented language and near-misses (truncated, extended, case-changed, character-substituted units/options, doubled "
+            "signs, stray whitespace, random token strings) are matched with the real patterns; TLC decides acceptance, the "
+            "delivered number/unit/option substrings, and equality of the derived unit/option lists with the lists given.",
+            "Trusted: the grammar transcription in ArgLang.tla. A bare number when units were declared is not judged.", "7 C22"),
+    "C34": (MC, "TLA+ spec CsvHold.tla (sample-and-hold table; laws checked by TLC over every small plot log) against the real "
+                "generate_csv_string, cell by cell, by CsvHoldTrace.tla",
+            "TLC enumerates every plot log with 2-3 tags, sample times in 1..3/1..4, up to 3 samples per tag in any order (repeats, "
+            "late starts, unsorted) and checks the table laws; each plot log is exported by the real code, the CSV parsed back and "
+            "every cell compared with Hold(tag, row time).",
+            "Trusted: csv.reader for reading back; row i is matched with the i-th distinct sample time (there is no time column).",
+            "7 C34"),
+    "C35": (MC, "TLA+ spec ErrLog.tla (reference Merge with laws NothingLost / OrderKept / BatchingIrrelevant checked by TLC) "
+                "against the real AggregatedErrorLog.aggregate_with on every enumerated delivery, by ErrLogTrace.tla",
+            "TLC enumerates every admissible delivery of up to 3 (thorough 4) entries over 2 messages x 2 severities x 3 times and "
+            "every split into two batches; the real aggregation must equal the reference after each batch.",
+            "Inputs never contain an entry older than the aggregated entry it would merge with (no meaning in the statement).",
+            "7 C35"),
 }
